@@ -3,5 +3,7 @@
 
 package rawmessagesfilter
 
+import "github.com/orbs-network/lean-helix-go/services/interfaces"
+
 // verifRecovered is a no-op unless built with the "verif" tag (see verif_hooks.go).
-func verifRecovered(f *RawMessageFilter, r interface{}) {}
+func verifRecovered(f *RawMessageFilter, r interface{}, message interfaces.ConsensusMessage) {}
